@@ -48,4 +48,16 @@ PROPS = {
                  "abstractions: Go's nil slice and the empty slice are both [] (goat init and the emitted YAML never produce an empty non-nil slice); strconv.Quote is modelled on printable text plus newline, tab, carriage return"],
         assumptions=["A9: yaml.v3 agrees with the line-level loader on the emitted shapes (monitored: real LoadConfig vs model load on every generated and mutated file)"],
     ),
+    "C10": dict(lean=["GoatSpec.Properties.C10"], streams=["text-pass-raw", "text-patch-tokens"], e2e=["patch"],
+                trusted=["modelled, not verified: Go regexp engine on whole lines (tied exhaustively on small arrangements), go/parser+go/printer, astutil import editing, template rendering of the generated file"],
+                assumptions=["A2/A3 as for C02/C06; 'the project still compiles' is an end-to-end oracle (go build), not a theorem"]),
+    "C11": dict(lean=["GoatSpec.Properties.C11"], streams=[], e2e=["sequences"],
+                trusted=["modelled, not verified: git (commit/checkout/clean/status), go build, the regexp passes and the instrumenter below the item level (their own properties C01-C10 tie them); the abstract machine takes git's dirtiness and the diff's yield as inputs"],
+                assumptions=["user edits stay outside marker blocks; marker edits are valid (+goat:generate -> +goat:delete, +goat:insert on its own line at a statement boundary)"]),
+    "C12": dict(lean=["GoatSpec.Properties.C12"], streams=[], e2e=["refusals"],
+                trusted=["modelled, not verified: cobra pre-run plumbing, go-git status/revision resolution, yaml.v3; the ORDER of the checks is hand-modelled and tied by e2e refusals (predicted refusal = observed message class for every scenario)"],
+                assumptions=["object store and reflogs are append-only stores outside the property (snapshot covers work tree, index, HEAD, refs, packed-refs)"]),
+    "C15": dict(lean=["GoatSpec.Properties.C15"], streams=[], e2e=["crash"],
+                trusted=["modelled, not verified: os.WriteFile atomicity at whole-file granularity (A8); the crash hook lets writes already past their boundary finish (threads>1)"],
+                assumptions=["A8: crash granularity is whole-file writes (torn writes are out of scope by the property's own text)"]),
 }
